@@ -8,7 +8,7 @@ from ast import Name
 from collections import deque
 from functools import partial
 from importlib import import_module
-from importlib.machinery import ModuleSpec
+from importlib.machinery import ModuleSpec, PathFinder
 from importlib.util import find_spec
 from inspect import getmodule
 from itertools import chain, count, filterfalse, islice, takewhile, tee, zip_longest
@@ -17,7 +17,7 @@ from keyword import iskeyword
 from operator import attrgetter, eq, itemgetter
 from os import environ, extsep, listdir, path
 from pprint import PrettyPrinter
-from sys import stderr, version_info
+from sys import modules, stderr, version_info
 from textwrap import fill as _fill
 from textwrap import indent
 from typing import Any, Callable, Dict, Optional, Sized, Tuple, Union, cast
@@ -887,6 +887,33 @@ def get_module(name, package=None, extra_symbols=None):
             raise
 
 
+def find_spec_sans_import(module_name):
+    """
+    `importlib.util.find_spec` imports (executes) every parent package of a dotted name; this finds the spec without
+
+    :param module_name: Module name, e.g., "cdd.tests" or "cdd"
+    :type: ```str```
+
+    :return: The spec; or None when not found
+    :rtype: ```Optional[ModuleSpec]```
+    """
+    names = module_name.split(".")
+    spec: Optional[ModuleSpec] = find_spec(names[0])
+    for idx in range(1, len(names)):
+        if spec is None:
+            break
+        name: str = ".".join(names[: idx + 1])
+        if name in modules:
+            spec = find_spec(name)
+        elif spec.submodule_search_locations is None:
+            spec = None
+        else:
+            spec = PathFinder.find_spec(name, spec.submodule_search_locations)
+        if spec is None and idx + 1 < len(names):
+            raise ModuleNotFoundError("No module named {!r}".format(name))
+    return spec
+
+
 def find_module_filepath(module_name, submodule_name=None, none_when_no_spec=False):
     """
     Find module's file location without first importing it
@@ -904,7 +931,7 @@ def find_module_filepath(module_name, submodule_name=None, none_when_no_spec=Fal
     :rpath: ```str```
     """
     assert module_name is not None
-    module_spec: Optional[ModuleSpec] = find_spec(module_name)
+    module_spec: Optional[ModuleSpec] = find_spec_sans_import(module_name)
     if module_spec is None:
         if none_when_no_spec:
             return module_spec
@@ -1360,6 +1387,7 @@ __all__ = [
     "filename_from_mod_or_filename",
     "fill",
     "find_module_filepath",
+    "find_spec_sans_import",
     "get_module",
     "identity",
     "indent_all_but_first",
